@@ -386,7 +386,8 @@ def conditions(tier):
             add(f'C10.decode-total[{code},n={n},pos={pos}]', h_decode_total(code, n, pos), f'every {n}-bit string, start position {pos}', D_DEC, code=code, n=n, pos=pos)
         for via in ('readlist', 'peeklist', 'readlist2'):
             nn = 8 if q else 12
-            for pos in ([0, 2] if q else [0, 1, 2, 5]):
+            # interleaved codewords have odd length (+1 sign bit for sie): both parities of n - pos are needed to end the data exactly at the sign bit
+            for pos in (([0, 1, 2] if code in ('uie', 'sie') else [0, 2]) if q else [0, 1, 2, 5]):
                 add(f'C10.decode-total-{via}[{code},n={nn},pos={pos}]', h_decode_total(code, nn, pos, via=via), f'every {nn}-bit string, start position {pos}, through {via}', D_DEC, code=code, n=nn, pos=pos)
         for pos in ([1] if q else [0, 1, 3, 8]):
             add(f'C10.decode-total[{code},n={n},pos={pos},options.bytealigned]', h_decode_total(code, n, pos, bytealigned=True), f'every {n}-bit string, start position {pos}, options.bytealigned set', D_DEC, code=code, n=n, pos=pos)
